@@ -147,7 +147,8 @@ def run_transform_case(sname, cfg, pname, seed, tier, res=None, only=None):
                     sc = max(1.0, float(ry.abs().max()))
                     dy = float((y[pos] - ry).abs().max())
                     dl = abs(float(ld[pos] - rl))
-                    if not (dy <= 1e-7 * sc) or not (dl <= 1e-7 * max(1.0, abs(float(rl)))):
+                    decl = 1e-5 if s.kind == "umnn" else 0.0  # declared: bisection on [-20, 20] with 25 halvings (a flipped last comparison moves the result by 1.2e-6)
+                    if not (dy <= 1e-7 * sc + decl) or not (dl <= 1e-7 * max(1.0, abs(float(rl))) + decl):
                         bad = "row %d of batch %s (pool row %d): outputs differ by %.3g, logabsdet by %.3g from the batch-size-1 evaluation" % (pos, list(b), i, dy, dl)
                         break
             if res is not None:
